@@ -1,26 +1,43 @@
 (* C18 — feature summary = per-feature median of the feature-label scores, sorted, (min-max) normalised;
    aggregated table = per-constituent median over the table just written.
    Only statements here; each is closed by [exact] of a lemma of Summary/SummaryProofs.v.
-   [singles heur lbl T] = feature_singles.tsv, [aggregated final] = feature_singles_aggregated.tsv computed from a
-   singles table, [summary] = both (the second only when interaction_order > 1), for a triplet table T read from
-   pairwise_ranks.tsv.  [label_partner lbl (A, B, s)] is the code's rule: if the name of A before the first '-' is the
-   label the row scores B, else if that of B is the label it scores A. *)
+
+   [singles_cells heur lbl T] = feature_singles.tsv and [aggregated_cells heur lbl T] = feature_singles_aggregated.tsv for the
+   triplet table T read from pairwise_ranks.tsv; a cell is [Some q] or [None] (= NaN, an empty cell).  [nan_table] holds exactly
+   when the heuristic name contains 'MI' and the non-empty table of medians has min = max: the code then computes 0/0.  On all
+   other inputs the cells are [Some] of [singles] (the rational-valued table) — the theorems about values carry the hypothesis
+   (or conclusion) min < max, so nothing rests on Coq's x/0 = 0.
+   [label_partner lbl (A, B, s)] is the code's rule: if the name of A before the first '-' is the label the row scores B, else if
+   that of B is the label it scores A. *)
 From Coq Require Import List QArith Qabs ZArith NArith Permutation Sorting.Sorted.
-From Outrank Require Import Rank.QMedian Summary.Summary Summary.SummaryProofs.
+From Outrank Require Import Rank.QMedian Rank.QMedianProofs Summary.Summary Summary.SummaryProofs.
 Import ListNotations.
 Open Scope Q_scope.
 
-(* each feature that was scored against the label appears exactly once, and nothing else appears *)
+(* each feature that was scored against the label appears exactly once, and nothing else appears (NaN table or not) *)
 Theorem C18_once : forall heur lbl T,
-  NoDup (map fst (singles heur lbl T)) /\
-  forall f, In f (map fst (singles heur lbl T)) <-> exists t s, In t T /\ label_partner lbl t = Some (f, s).
-Proof. exact singles_once. Qed.
+  NoDup (map fst (singles_cells heur lbl T)) /\
+  forall f, In f (map fst (singles_cells heur lbl T)) <-> exists t s, In t T /\ label_partner lbl t = Some (f, s).
+Proof. exact cells_once. Qed.
 
-(* its score is the median of its feature-label scores, min-max normalised over the table for 'MI' heuristics *)
-Theorem C18_median : forall heur lbl T f v, In (f, v) (singles heur lbl T) ->
+(* a numeric cell is the median of the feature's label scores, min-max normalised for 'MI' heuristics — and then min < max *)
+Theorem C18_median : forall heur lbl T f v, In (f, Some v) (singles_cells heur lbl T) ->
   let m := qmedian (label_scores lbl T f) in
-  v = if has_MI heur then minmax (qmin (map snd (pre lbl T))) (qmax (map snd (pre lbl T))) m else m.
-Proof. exact singles_median. Qed.
+  let lo := qmin (map snd (pre lbl T)) in
+  let hi := qmax (map snd (pre lbl T)) in
+  (has_MI heur = true -> lo < hi) /\
+  v = if has_MI heur then minmax lo hi m else m.
+Proof. exact cells_median. Qed.
+
+(* NaN cells: exactly the 'MI' heuristics over a non-empty table whose medians all coincide (e.g. one listed feature);
+   then every cell is NaN.  The property's "best 1, worst 0" cannot hold there (recorded as an observation / finding candidate). *)
+Theorem C18_nan_table : forall heur lbl T, nan_table heur lbl T = true <->
+  has_MI heur = true /\ pre lbl T <> [] /\ qmin (map snd (pre lbl T)) == qmax (map snd (pre lbl T)).
+Proof. exact nan_table_true. Qed.
+Theorem C18_nan_cells : forall heur lbl T f, In (f, None) (singles_cells heur lbl T) ->
+  has_MI heur = true /\ (forall g w, In (g, w) (pre lbl T) -> w == qmin (map snd (pre lbl T))) /\
+  (forall g c, In (g, c) (singles_cells heur lbl T) -> c = None).
+Proof. exact cells_none. Qed.
 
 (* where the feature-label scores of f are exactly the scores of the rows the label rule selects for f *)
 Theorem C18_label_scores : forall lbl T f s,
@@ -32,12 +49,15 @@ Theorem C18_row_order : forall lbl T T' f, Permutation T T' -> Forall (fun t => 
   qmedian (label_scores lbl T f) = qmedian (label_scores lbl T' f).
 Proof. exact row_order_irrelevant. Qed.
 
-(* descending score order, normalised or not *)
-Theorem C18_sorted_desc : forall heur lbl T, StronglySorted (fun a b => snd b <= snd a) (singles heur lbl T).
-Proof. exact singles_sorted. Qed.
+(* outside the NaN table all cells are numbers, in descending order; for an 'MI' heuristic over a non-empty table min < max *)
+Theorem C18_sorted_desc : forall heur lbl T, nan_table heur lbl T = false ->
+  singles_cells heur lbl T = some_cells (singles heur lbl T) /\
+  StronglySorted (fun a b => snd b <= snd a) (singles heur lbl T) /\
+  (has_MI heur = true -> pre lbl T <> [] -> qmin (map snd (pre lbl T)) < qmax (map snd (pre lbl T))).
+Proof. exact cells_sorted. Qed.
 
-(* 'MI' in the heuristic name and at least two distinct medians: same feature order as the table of medians, every score in
-   [0,1], the best (first) feature gets 1 and the worst (last) gets 0, and the order of the scores is preserved *)
+(* 'MI' in the heuristic name and at least two distinct medians: numeric cells, same feature order as the table of medians, every
+   score in [0,1], the best (first) feature gets 1 and the worst (last) gets 0, and the order of the scores is preserved *)
 Theorem C18_minmax : forall heur lbl T,
   has_MI heur = true ->
   let m := pre lbl T in
@@ -54,35 +74,48 @@ Theorem C18_minmax : forall heur lbl T,
   /\ (forall v w, v < w -> minmax lo hi v < minmax lo hi w)
   /\ (forall v w, v <= w -> minmax lo hi v <= minmax lo hi w).
 Proof. exact singles_minmax. Qed.
+Theorem C18_minmax_cells : forall heur lbl T,
+  (exists f g v w, In (f, v) (pre lbl T) /\ In (g, w) (pre lbl T) /\ ~ v == w) ->
+  nan_table heur lbl T = false /\ singles_cells heur lbl T = some_cells (singles heur lbl T).
+Proof.
+  intros heur lbl T H. pose proof (nan_table_distinct heur lbl T H) as E. split; [exact E|].
+  unfold singles_cells. rewrite E. reflexivity.
+Qed.
 
-(* a heuristic without 'MI' is not normalised *)
-Theorem C18_no_minmax : forall heur lbl T, has_MI heur = false -> singles heur lbl T = pre lbl T.
-Proof. intros heur lbl T H. rewrite singles_def, H. reflexivity. Qed.
+(* a heuristic without 'MI' is not normalised and never yields NaN cells *)
+Theorem C18_no_minmax : forall heur lbl T, has_MI heur = false ->
+  singles_cells heur lbl T = some_cells (pre lbl T).
+Proof. intros heur lbl T H. unfold singles_cells, nan_table, singles. rewrite H. reflexivity. Qed.
 
 (* the aggregated table is computed from the singles table just written, only for interaction order > 1 *)
 Theorem C18_aggregated_of_singles : forall heur lbl order T,
   summary heur lbl order T =
-  (singles heur lbl T, if (1 <? order)%Z then Some (aggregated (singles heur lbl T)) else None).
-Proof. reflexivity. Qed.
+  (singles_cells heur lbl T, if (1 <? order)%Z then Some (aggregated_cells heur lbl T) else None) /\
+  aggregated_cells heur lbl T =
+  if nan_table heur lbl T then nan_cells (aggregated (pre lbl T)) else some_cells (aggregated (singles heur lbl T)).
+Proof. intros. split; reflexivity. Qed.
 
-(* per constituent (once each): the median of the scores of the rows whose name contains "AND" and lists it *)
+(* per constituent (once each): the median of the scores of the rows whose name contains the joiner ' AND ' and lists it *)
 Theorem C18_aggregated : forall final,
   NoDup (map fst (aggregated final)) /\
   (forall c, In c (map fst (aggregated final)) <->
-             exists f s, In (f, s) final /\ contains AND_ f = true /\ In c (constituents f)) /\
+             exists f s, In (f, s) final /\ contains SEP_ f = true /\ In c (constituents f)) /\
   (forall c v, In (c, v) (aggregated final) -> v = qmedian (scores_of c (feature_store final))) /\
   (forall c s, In (c, s) (feature_store final) <->
-               exists f, In (f, s) final /\ contains AND_ f = true /\ In c (constituents f)).
+               exists f, In (f, s) final /\ contains SEP_ f = true /\ In c (constituents f)).
 Proof.
   intros final. destruct (aggregated_spec final) as [A [B C]]. repeat split; try assumption; try apply B; try apply feature_store_in.
 Qed.
 
-(* on the stated domain — names are  c1 AND ... AND ck  optionally followed by '-annotation', constituents contain neither '-'
-   nor a blank, and single names do not contain "AND" — the scores collected for the constituents are exactly those of the
-   interactions (k >= 2) they take part in *)
+(* names  c1 AND ... AND ck  optionally followed by '-annotation'.  Hypotheses that remain:
+     nodash  : constituents contain no '-'            (necessary: C18_dash_constituent_refuted, C18_dash_label_refuted)
+     sepfree : c ++ " AND" contains no ' AND ', i.e. c neither contains the joiner nor ends in ' AND'
+                                                      (necessary: C18_sep_suffix_refuted)
+     annot_ok: the annotation contains no ' AND '
+   No hypothesis about the substring AND: BRAND, AND, "x AND" + ... are fine as single names.
+   Then the scores collected for the constituents are exactly those of the interactions (k >= 2) they take part in. *)
 Theorem C18_aggregated_wellformed : forall rows : list wf_row,
-  (forall cs a s, In (cs, a, s) rows -> cs <> [] /\ Forall nodash cs /\ Forall noblank cs) ->
-  (forall c a s, In ([c], a, s) rows -> contains AND_ (render [c] a) = false) ->
+  (forall cs a s, In (cs, a, s) rows -> cs <> [] /\ Forall nodash cs /\ Forall sepfree cs /\ annot_ok a) ->
   feature_store (map render_row rows) =
   flat_map (fun r => let '(cs, a, s) := r in if (2 <=? length cs)%nat then map (fun c => (c, s)) cs else []) rows.
 Proof. exact feature_store_wellformed. Qed.
@@ -92,41 +125,77 @@ Theorem C18_label_rule : forall lbl cs annot, Forall nodash cs ->
   (is_label lbl (render cs annot) = true <-> join_and cs = lbl).
 Proof. exact label_rule. Qed.
 
-Theorem C18_constituents : forall cs annot, cs <> [] -> Forall nodash cs -> Forall noblank cs ->
+Theorem C18_constituents : forall cs annot, cs <> [] -> Forall nodash cs -> Forall sepfree cs ->
   constituents (render cs annot) = cs.
 Proof. exact constituents_render. Qed.
 
+(* --- witnesses --- *)
+(* the rule before /repo baf07bf ('AND' in fname) aggregated the plain feature BRAND as its own constituent; the repaired rule does not *)
+Theorem C18_and_substring_prefix_refuted : exists final,
+  map fst (group_median (feature_store_old final)) = [BRAND] /\ aggregated final = [].
+Proof. exists [(BRAND, 1 # 2)]. exact and_substring_old_rule. Qed.
+
+(* a label containing '-' (here "my-l") matches no row — "name before the first '-'" is the property's own rule, so this stays
+   an observation; it shows that nodash on the label is necessary for C18_label_rule *)
+Theorem C18_dash_label_refuted : exists heur lbl f s, singles_cells heur lbl [(f, lbl, s)] = [].
+Proof. exists [65]%N, [109; 121; 45; 108]%N, [102]%N, (1 # 2). exact dash_label_empty. Qed.
+
+Theorem C18_dash_constituent_refuted : exists cs, constituents (render cs None) <> cs.
+Proof. exists [[97; 45; 98]%N; [99]%N]. vm_compute. discriminate. Qed.
+
+(* "no ' AND ' inside a constituent" alone is not enough: "x AND" joined with "y" is split as "x", "AND y" *)
+Theorem C18_sep_suffix_refuted : exists c d, contains SEP_ c = false /\ contains SEP_ d = false /\
+  constituents (render [c; d] None) <> [c; d].
+Proof.
+  exists [120; 32; 65; 78; 68]%N, [121]%N. split; [reflexivity|]. split; [reflexivity|]. vm_compute. discriminate.
+Qed.
+
 (* the executable checkers evaluated on the implementation's files: sound for the clauses, and they accept the model *)
-Theorem C18_check_sound : forall tol heur lbl T obs, singles_okb tol heur lbl T obs = true ->
+Theorem C18_check_sound : forall tol heur lbl T obs, cells_okb tol heur lbl T obs = true ->
   NoDup (map fst obs)
   /\ (forall f, In f (map fst obs) <-> exists t s, In t T /\ label_partner lbl t = Some (f, s))
-  /\ adjacent_desc tol (map snd obs)
-  /\ (forall f x, In (f, x) obs -> Qabs (x - expected heur lbl T f) <= tol).
-Proof. exact singles_okb_sound. Qed.
+  /\ (if nan_table heur lbl T then forall f c, In (f, c) obs -> c = None
+      else exists o, obs = some_cells o /\ adjacent_desc tol (map snd o)
+                     /\ forall f x, In (f, x) o -> Qabs (x - expected heur lbl T f) <= tol).
+Proof. exact cells_okb_sound. Qed.
 
 Theorem C18_check_aggregated_sound : forall tol final obs, aggregated_okb tol final obs = true ->
   NoDup (map fst obs)
-  /\ (forall c, In c (map fst obs) <-> exists f s, In (f, s) final /\ contains AND_ f = true /\ In c (constituents f))
+  /\ (forall c, In c (map fst obs) <-> exists f s, In (f, s) final /\ contains SEP_ f = true /\ In c (constituents f))
   /\ (forall c x, In (c, x) obs -> Qabs (x - qmedian (scores_of c (feature_store final))) <= tol).
 Proof. exact aggregated_okb_sound. Qed.
 
+Theorem C18_check_aggregated_cells_sound : forall tol final obs, aggregated_cells_okb tol final obs = true ->
+  (exists f o, final = some_cells f /\ obs = some_cells o /\ aggregated_okb tol f o = true)
+  \/ ((forall g c, In (g, c) final -> c = None) /\ (forall g c, In (g, c) obs -> c = None) /\ NoDup (map fst obs) /\
+      forall k, In k (map fst obs) <-> In k (map fst (aggregated (map (fun r => (fst r, 0)) final)))).
+Proof. exact aggregated_cells_okb_sound. Qed.
+
 Theorem C18_model_ok : forall heur lbl T,
-  singles_okb 0 heur lbl T (singles heur lbl T) = true /\
-  aggregated_okb 0 (singles heur lbl T) (aggregated (singles heur lbl T)) = true.
-Proof. intros. split; [apply singles_model_ok|apply aggregated_model_ok]. Qed.
+  cells_okb 0 heur lbl T (singles_cells heur lbl T) = true /\
+  aggregated_cells_okb 0 (singles_cells heur lbl T) (aggregated_cells heur lbl T) = true.
+Proof. intros. split; [apply cells_model_ok|apply aggregated_cells_model_ok]. Qed.
 
 Print Assumptions C18_once.
 Print Assumptions C18_median.
+Print Assumptions C18_nan_table.
+Print Assumptions C18_nan_cells.
 Print Assumptions C18_label_scores.
 Print Assumptions C18_row_order.
 Print Assumptions C18_sorted_desc.
 Print Assumptions C18_minmax.
+Print Assumptions C18_minmax_cells.
 Print Assumptions C18_no_minmax.
 Print Assumptions C18_aggregated_of_singles.
 Print Assumptions C18_aggregated.
 Print Assumptions C18_aggregated_wellformed.
 Print Assumptions C18_label_rule.
 Print Assumptions C18_constituents.
+Print Assumptions C18_and_substring_prefix_refuted.
+Print Assumptions C18_dash_label_refuted.
+Print Assumptions C18_dash_constituent_refuted.
+Print Assumptions C18_sep_suffix_refuted.
 Print Assumptions C18_check_sound.
 Print Assumptions C18_check_aggregated_sound.
+Print Assumptions C18_check_aggregated_cells_sound.
 Print Assumptions C18_model_ok.
